@@ -44,12 +44,25 @@ def init_base_rule(rep, u):
         incs = [p for p, r, x, _ in fw.nodes() if core.step_of(x) is not None and core.step_of(x)[1] == 1 and key(core.strip_casts(core.step_of(x)[0])).endswith("iov_index")]
         if not incs:
             raise driver.AnalysisBroken("%s: iov_index increment not found" % fname)
-        # the wrap decision: the condition on the space left that follows
-        wrap = [bid for bid in fw.reachable_blocks() if fw.blocks[bid].cond is not None and any(core.is_ref(y, name="min_buf_size") for y, _ in _walk(fw.blocks[bid].cond))
-                and any(fw.dominates(p[0], bid) or bid in fw.reach_from([p[0]]) for p in incs)]
+        # every other write of the index (the reset to 0 of the wrapping path) makes the freshly opened entry unreachable for
+        # the writer: its base must have been stored before, whichever branch stores it
+        resets = [p for p, r, x, _ in fw.nodes() if x.get("k") == "bin" and x["op"] == "=" and key(core.strip_casts(x["x"])).endswith("iov_index") and p not in incs]
         bases = [p for p, r, x, _ in fw.nodes() if x.get("k") == "bin" and x["op"] == "=" and key(core.strip_casts(x["x"])).endswith("iov_index].iov_base")]
+        if not resets:
+            raise driver.AnalysisBroken("%s: the wrap (reset of iov_index) not found" % fname)
         n += 1
-        ok = bool(wrap) and any(all(fw.pos_dominates(b_, (w, 0)) for w in wrap) for b_ in bases)
+        ok = True
+        for inc in incs:
+            for rs in resets:
+                if rs[0] != inc[0] and rs[0] not in fw.reach_from([inc[0]]):
+                    continue
+                # a base store between the two positions on every path: remove the blocks holding one and see whether the reset is still reached
+                same = [b_ for b_ in bases if b_[0] == inc[0] and b_[1] > inc[1]] + [b_ for b_ in bases if b_[0] == rs[0] and b_[1] < rs[1] and (rs[0] != inc[0] or b_[1] > inc[1])]
+                if same:
+                    continue
+                cut = {b_[0] for b_ in bases if b_[0] not in (inc[0], rs[0])}
+                if rs[0] == inc[0] or rs[0] in fw.reach_from([inc[0]], avoid=cut):
+                    ok = False
         (rep.proved if ok else rep.violated)("R-INITBASE", fw, "open-entry-base-before-wrap", "%s: the freshly opened entry has its base before the wrap decision" % fname, "" if ok else
                                              "on the wrapping path entry iov_index_max + 1 never gets a base: a reader that had caught up and is lapped twice gets a "
                                              "dropped amount computed from that garbage pointer (139726826569816 instead of 48)")
@@ -67,7 +80,24 @@ def exact_read_rule(rep, u, fname="iovec_aggregate_ex"):
         for y, _ in _walk(cnd):
             if y.get("k") == "bin" and y["op"] in (">", ">=", "<", "<=") and "iov[0].iov_len" in key(y) and any(core.is_ref(core.strip_casts(y[s_]), name="data_size") for s_ in ("x", "y")):
                 n += 1
-                strict = y["op"] in (">", "<")
+                # evaluated, not matched: with exactly data_size bytes pending in block 0 the test must not refuse, with one
+                # byte more pending (a fragment would be cut) it must
+                from rules import r_mpt
+
+                def _ev(pending, want):
+                    env = {}
+                    for z, _ in _walk(y):
+                        if z.get("k") == "mem" and key(z).endswith("iov[0].iov_len"):
+                            env[id(z)] = pending
+                        elif core.is_ref(z, name="off"):
+                            env[id(z)] = 0
+                        elif core.is_ref(z, name="data_size"):
+                            env[id(z)] = want
+                    return r_mpt.eval_expr(y, env)
+                try:
+                    strict = (not _ev(8, 8)) and bool(_ev(9, 8))
+                except r_mpt.Unknown:
+                    strict = y["op"] in (">", "<")
                 (rep.proved if strict else rep.violated)("R-EXACTREAD", fn, "single-block-test", "%s: a request equal to what the first block holds is served" % fname,
                                                          key(y)[:60] if strict else "%s: with one committed block of 8 pending a request of 8 returns nothing (a request of 9 returns the 8 bytes)" % key(y)[:60], y.get("ln"))
     return n
